@@ -46,6 +46,11 @@ def main():
     rfile = os.path.join(base, "RESULTS.json")
     if os.path.exists(rfile) and a.only:
         results = json.load(open(rfile))
+    if a.dir == "benign" and not results:
+        try:
+            results = json.load(open(rfile))
+        except Exception:
+            results = {}
     for name, patch, prop in patches:
         if a.only and not name.startswith(a.only):
             continue
@@ -96,7 +101,7 @@ def main():
         finally:
             subprocess.run(["git", "-C", "/repo", "worktree", "remove", "--force", d])
             subprocess.run(["rm", "-rf", d])
-        json.dump(results, open(rfile, "w"), indent=1, sort_keys=True)
+            json.dump(results, open(rfile, "w"), indent=1, sort_keys=True)
     if a.expect_clean:
         print("%d/%d clean" % (sum(1 for e in results.values() if e.get("clean")), len(results)))
     else:
